@@ -80,10 +80,10 @@ Definition nthr (i : nat) (M : mat) : vec := nth i M [].
 Definition tol_sum : F := tolp 45.     (* float summation / division of the mean, of the ratio *)
 Definition tol_acc : F := tolp 50.     (* two roundings of sigma^2/(n-1) *)
 Definition tol_dot : F := tolp 48.     (* a dot product of <= 8 terms after one subtraction *)
-Definition d_orth : F := tolp 30.      (* orthonormality, Ritz values, whitened covariance *)
+Definition d_orth : F := tolp 20.      (* orthonormality, Ritz values, whitened covariance *)
 Definition d_res : F := tolp 23.       (* eigen-residual (relative to T * |w|_1) *)
 Definition d_lead : F := tolp 17.      (* slack of the deflation certificate (relative to T) *)
-Definition d_rt : F := tolp 30.        (* round trip *)
+Definition d_rt : F := tolp 20.        (* round trip *)
 Definition d_small : F := tolp 20.
 Definition cutoff : F := of_N o 1001000 / of_N o (2 ^ 52).   (* eps * 1e6 with 0.1% slack *)
 
